@@ -1,7 +1,11 @@
 (* C04, history-dependent part: every MySQL MODIFY COLUMN emitted for a ModifyColumn{Type,Nullable,Default,
    Comment} action re-declares exactly the (type text, nullability, default text) that the column has in the
-   schema AFTER the action — for every evolving schema, no bound.  Also: no MODIFY ever carries
-   AUTO_INCREMENT or PRIMARY KEY, and only ModifyColumnComment carries a COMMENT. *)
+   schema AFTER the action — for every evolving schema, no bound.  Since fix N1 it also restates AUTO_INCREMENT
+   (when the column is in an auto-increment primary key and the type supports it) and the COMMENT; it never
+   carries an inline PRIMARY KEY.
+   History: before N1 the statement here was "cd_auto d = false /\ cd_comment d = (the new comment, for
+   ModifyColumnComment only)", and modify_never_restates_autoinc proved that no MODIFY ever carried AUTO_INCREMENT
+   (DESIGN D19, finding C04-autoinc-lost-on-modify). *)
 From VV.MYSQL Require Import Spec.
 From Coq Require Import Lia.
 
@@ -92,7 +96,8 @@ Theorem modify_preserves : forall s P a t c col s',
     lookup_column s' t c = Some col' /\
     cd_name d = c /\
     restated d = declared col' /\
-    cd_auto d = false /\ cd_pk d = false /\ cd_comment d = modify_comment a.
+    cd_auto d = (is_auto_col s t c && supports_auto_increment (c_type col'))%bool /\ cd_pk d = false /\
+    cd_comment d = comment_body a col'.
 Proof.
   intros s P a t c col s' Ht Hl Ha Hd.
   pose proof (apply_modify_lookup s a t c col s' Ht Hl Ha) as Hl'.
@@ -104,7 +109,8 @@ Proof.
     exists (fill_with_updates t c fill_with), (modify_type_coldef s t c new_type), (set_type new_type col).
     split; [reflexivity|]. split; [apply fill_with_updates_are_updates|].
     split; [exact Hl'|].
-    unfold modify_type_coldef. rewrite Hl. cbn [cd_name cd_auto cd_pk cd_comment modify_comment].
+    unfold modify_type_coldef. rewrite Hl. unfold restate_attrs, restated_auto, is_auto_col.
+    cbn [cd_name cd_auto cd_pk cd_comment comment_body set_type c_name c_type c_comment]. rewrite Hname.
     repeat split; try reflexivity.
     unfold restated, declared. cbn [cd_type cd_notnull cd_default set_type c_type c_nullable c_default].
     f_equal.
@@ -118,28 +124,34 @@ Proof.
     exists (match nullable, normalize_fill_with fill_with with
             | false, Some f => [SUpdate t c (convert_default_mysql f) (Some (WIsNull c))]
             | _, _ => []
-            end), (sea_coldef (set_nullable nullable col)), (set_nullable nullable col).
+            end), (restate_attrs s t (set_nullable nullable col) (sea_coldef (set_nullable nullable col))), (set_nullable nullable col).
     split.
     { cbn [gen]. unfold gen_modify_nullable, with_column. rewrite Ft, Fc. reflexivity. }
     split. { destruct nullable; [reflexivity|]. destruct (normalize_fill_with fill_with); reflexivity. }
     split; [exact Hl'|].
-    unfold sea_coldef. cbn [cd_name cd_auto cd_pk cd_comment modify_comment set_nullable c_name].
-    repeat split; try reflexivity. exact Hname.
+    unfold restate_attrs, restated_auto, is_auto_col, sea_coldef.
+    cbn [cd_name cd_auto cd_pk cd_comment comment_body set_nullable c_name c_type c_comment]. rewrite Hname.
+    repeat split; reflexivity.
   - (* ModifyColumnDefault *)
-    exists [], (sea_coldef (set_default (option_map default_of_string new_default) col)),
+    exists [], (restate_attrs s t (set_default (option_map default_of_string new_default) col)
+                  (sea_coldef (set_default (option_map default_of_string new_default) col))),
            (set_default (option_map default_of_string new_default) col).
     split.
     { cbn [gen]. unfold gen_modify_default, with_column. rewrite Ft, Fc. reflexivity. }
     split; [reflexivity|]. split; [exact Hl'|].
-    unfold sea_coldef. cbn [cd_name cd_auto cd_pk cd_comment modify_comment set_default c_name].
-    repeat split; try reflexivity. exact Hname.
+    unfold restate_attrs, restated_auto, is_auto_col, sea_coldef.
+    cbn [cd_name cd_auto cd_pk cd_comment comment_body set_default c_name c_type c_comment]. rewrite Hname.
+    repeat split; reflexivity.
   - (* ModifyColumnComment *)
-    exists [], (with_comment new_comment (sea_coldef (set_comment new_comment col))), (set_comment new_comment col).
+    exists [], (with_comment (option_map hand_escape new_comment)
+                  (restate_auto s t (set_comment new_comment col) (sea_coldef (set_comment new_comment col)))),
+           (set_comment new_comment col).
     split.
     { cbn [gen]. unfold gen_modify_comment, with_column. rewrite Ft, Fc. reflexivity. }
     split; [reflexivity|]. split; [exact Hl'|].
-    unfold with_comment, sea_coldef. cbn [cd_name cd_auto cd_pk cd_comment cd_type cd_notnull cd_default modify_comment set_comment c_name].
-    repeat split; try reflexivity. exact Hname.
+    unfold with_comment, restate_auto, restated_auto, is_auto_col, sea_coldef.
+    cbn [cd_name cd_auto cd_pk cd_comment cd_type cd_notnull cd_default comment_body set_comment c_name c_type c_comment]. rewrite Hname.
+    repeat split; reflexivity.
 Qed.
 
 (* ---------- lift over plans: gen_plan generates action i from the evolving schema before it ---------- *)
@@ -186,7 +198,8 @@ Theorem modify_preserves_plan : forall s acts L i a t c col s',
     forallb is_update pre = true /\
     lookup_column (schema_at s acts (S i)) t c = Some col' /\
     cd_name d = c /\ restated d = declared col' /\
-    cd_auto d = false /\ cd_pk d = false /\ cd_comment d = modify_comment a.
+    cd_auto d = (is_auto_col (schema_at s acts i) t c && supports_auto_increment (c_type col'))%bool /\ cd_pk d = false /\
+    cd_comment d = comment_body a col'.
 Proof.
   intros s acts L i a t c col s' Hg Hn Ht Hl Ha Hd.
   destruct (gen_plan_nth acts s L i a Hg Hn) as [st [N G]].
@@ -224,14 +237,15 @@ Theorem modify_preserves_history : forall (H : list plan) k p sb L i a t c col s
     forallb is_update pre = true /\
     lookup_column s' t c = Some col' /\
     cd_name d = c /\ restated d = declared col' /\
-    cd_auto d = false /\ cd_pk d = false /\ cd_comment d = modify_comment a.
+    cd_auto d = (is_auto_col s_i t c && supports_auto_increment (c_type col'))%bool /\ cd_pk d = false /\
+    cd_comment d = comment_body a col'.
 Proof.
   intros H k p sb L i a t c col s_i s' _ _ Hg Hn Hs Ht Hl Ha Hd.
   pose proof (apply_all_step _ _ _ Hs) as E. fold (schema_at sb (p_actions p) i) in E.
   rewrite <- E in Hl, Ha.
   destruct (modify_preserves_plan sb (p_actions p) L i a t c col s' Hg Hn Ht Hl Ha Hd)
     as [pre [d [col' [N [U [L' R]]]]]].
-  exists pre, d, col'. split; [exact N|]. split; [exact U|]. split; [|exact R].
+  exists pre, d, col'. split; [exact N|]. split; [exact U|]. split; [|rewrite E in R; exact R].
   destruct (modify_preserves (schema_at sb (p_actions p) i) [] a t c col s' Ht Hl Ha Hd)
     as [_ [_ [col2 [_ [_ [L2 _]]]]]].
   (* both are the lookup in the schema after the action *)
@@ -240,45 +254,6 @@ Proof.
   rewrite E2 in L'. exact L'.
 Qed.
 
-(* ---------- D19 as a statement about every input: no MODIFY COLUMN ever carries AUTO_INCREMENT ---------- *)
-Theorem modify_never_restates_autoinc : forall s P a st t d,
-  gen s P a = Ok st -> In (SModifyColumn t d) st -> cd_auto d = false /\ cd_pk d = false.
-Proof.
-  intros s P a st t d G I.
-  destruct a as [tb cols ks|tb|tb cl fw|tb f2 t2|tb cn|tb cn ty fw|tb cn nl fw|tb cn nd|tb cn nc|tb k|tb k|f2 t2|sql]; cbn [gen] in G.
-  - (* CreateTable *) unfold gen_create_table in G. destruct (normalize _) as [n|e]; [|discriminate].
-    inversion G; subst st. destruct I as [I|I]; [discriminate|].
-    unfold create_indexes in I. apply in_flat_map in I. destruct I as [k [_ I]].
-    destruct k; cbn in I; try contradiction. destruct I as [I|[]]; discriminate.
-  - inversion G; subst. destruct I as [I|[]]; discriminate.
-  - (* AddColumn *) inversion G; subst st. unfold gen_add_column in I.
-    destruct (negb (c_nullable cl) && is_none (c_default cl) && is_some fw)%bool.
-    + apply in_app_or in I. destruct I as [I|I]; [destruct I as [I|[]]; discriminate|].
-      apply in_app_or in I. destruct I as [I|I].
-      * destruct (normalize_fill_with fw); [destruct I as [I|[]]; discriminate|contradiction].
-      * destruct I as [I|[]]. injection I as Et Ed; subst d; split; reflexivity.
-    + destruct I as [I|[]]; discriminate.
-  - inversion G; subst. destruct I as [I|[]]; discriminate.
-  - inversion G; subst. destruct I as [I|[]]; discriminate.
-  - (* ModifyColumnType *) inversion G; subst st. unfold gen_modify_type in I. apply in_app_or in I.
-    destruct I as [I|I].
-    + unfold fill_with_updates in I. destruct fw as [l|]; [|contradiction].
-      apply in_map_iff in I. destruct I as [x [I _]]. discriminate.
-    + destruct I as [I|[]]. unfold modify_type_coldef in I.
-      destruct (lookup_column s tb cn); injection I as Et Ed; subst d; split; reflexivity.
-  - (* ModifyColumnNullable *) unfold gen_modify_nullable, with_column in G.
-    destruct (find_table tb s) as [td|]; [|discriminate]. destruct (find_column cn td) as [c|]; [|discriminate].
-    inversion G; subst st. apply in_app_or in I. destruct I as [I|I].
-    + destruct nl; [contradiction|]. destruct (normalize_fill_with fw); [destruct I as [I|[]]; discriminate|contradiction].
-    + destruct I as [I|[]]. injection I as Et Ed; subst d; split; reflexivity.
-  - unfold gen_modify_default, with_column in G.
-    destruct (find_table tb s) as [td|]; [|discriminate]. destruct (find_column cn td) as [c|]; [|discriminate].
-    inversion G; subst st. destruct I as [I|[]]. injection I as Et Ed; subst d; split; reflexivity.
-  - unfold gen_modify_comment, with_column in G.
-    destruct (find_table tb s) as [td|]; [|discriminate]. destruct (find_column cn td) as [c|]; [|discriminate].
-    inversion G; subst st. destruct I as [I|[]]. injection I as Et Ed; subst d; split; reflexivity.
-  - (* AddConstraint *) inversion G; subst st. destruct k; cbn in I; destruct I as [I|[]]; discriminate.
-  - inversion G; subst st. destruct k; cbn in I; destruct I as [I|[]]; discriminate.
-  - inversion G; subst. destruct I as [I|[]]; discriminate.
-  - inversion G; subst. destruct (String.eqb sql ""); [contradiction|]. destruct I as [I|[]]; discriminate.
-Qed.
+(* History (before fix N1): modify_never_restates_autoinc proved here that no statement list of gen ever contains a
+   MODIFY COLUMN with AUTO_INCREMENT or PRIMARY KEY — DESIGN D19 as a statement about every input.  The inline PRIMARY
+   KEY half still holds and is part of modify_preserves (cd_pk d = false). *)
